@@ -25,10 +25,14 @@ type cfg struct {
 	K         int
 	Late      string // "": none; "root": late Subscribe on the root publisher; "clone": on the first clone
 	CloseLeaf string // path of a leaf that is closed concurrently with the stream (its siblings must not notice)
-	MapOrder  bool   // the publisher's iteration order over its subscriptions is an explorer choice
-	Prop      string
-	Mode      string
-	Bound     int
+	// Churn: before the stream starts, CloseLeaf is closed and (once that has been processed) the Late subscriber
+	// subscribes: everybody still there, old and new, receives the whole stream
+	Churn      bool
+	TwoUpdates bool // the stream has two consecutive updates of one object
+	MapOrder   bool // the publisher's iteration order over its subscriptions is an explorer choice
+	Prop       string
+	Mode       string
+	Bound      int
 }
 
 func script() []kcache.Event {
@@ -37,6 +41,15 @@ func script() []kcache.Event {
 		kcache.NewEvent(kcache.EventTypeUpdate, hx.Pod("ns", "a", "2", "l=1")),
 		kcache.NewEvent(kcache.EventTypeCreate, hx.Pod("ns", "b", "3", "l=0")),
 		kcache.NewEvent(kcache.EventTypeDelete, hx.Pod("ns", "a", "4", "l=1")),
+	}
+}
+
+func script2() []kcache.Event {
+	return []kcache.Event{
+		kcache.NewEvent(kcache.EventTypeCreate, hx.Pod("ns", "a", "1", "l=1")),
+		kcache.NewEvent(kcache.EventTypeUpdate, hx.Pod("ns", "a", "2", "l=1")),
+		kcache.NewEvent(kcache.EventTypeUpdate, hx.Pod("ns", "a", "3", "l=1")),
+		kcache.NewEvent(kcache.EventTypeUpdate, hx.Pod("ns", "a", "4", "l=0")),
 	}
 }
 
@@ -65,6 +78,27 @@ func (in *inst) run() {
 		}
 	})
 	evs := script()[:in.c.K]
+	if in.c.TwoUpdates {
+		evs = script2()[:in.c.K]
+	}
+	if in.c.Churn {
+		hx.Walk(in.nodes, func(n *hx.Node) {
+			if n.Path == in.c.CloseLeaf {
+				n.Close()
+			}
+		})
+		vs.SleepIdle(1)
+		n := &hx.Node{Path: "late"}
+		n.Sub, n.Err = in.root.Pub.Subscribe()
+		in.lateErr = n.Err
+		if n.Err == nil {
+			in.order = append(in.order, "subscribed")
+			in.late = n
+			in.lateFinished = true
+			go n.Consume(true)
+		}
+		vs.SleepIdle(1)
+	}
 	go func() {
 		for i, ev := range evs {
 			if in.c.Late != "" {
@@ -75,7 +109,7 @@ func (in *inst) run() {
 		}
 		in.pubFinished = true
 	}()
-	if in.c.CloseLeaf != "" {
+	if in.c.CloseLeaf != "" && !in.c.Churn {
 		go func() {
 			hx.Walk(in.nodes, func(n *hx.Node) {
 				if n.Path == in.c.CloseLeaf {
@@ -84,7 +118,7 @@ func (in *inst) run() {
 			})
 		}()
 	}
-	if in.c.Late != "" {
+	if in.c.Late != "" && !in.c.Churn {
 		go func() {
 			var p kcache.Publisher = in.root.Pub
 			if in.c.Late == "clone" {
@@ -256,6 +290,12 @@ func Property() runner.Property {
 				scenario(cfg{Name: "clone(sub,sub),sub", Tree: t4, K: 4, Mode: "S2", Bound: 2}),
 				scenario(cfg{Name: "sub,sub,sub", Tree: []hx.Spec{sub(), sub(), sub()}, K: 2, MapOrder: true, Mode: "S2", Bound: 3}),
 			}
+			// subscriber churn before the stream (one leaves, one joins), and two updates of one object back to back
+			out = append(out,
+				scenario(cfg{Name: "sub,sub,clone(sub)/churn", Tree: []hx.Spec{sub(), sub(), clone(sub())}, K: 3, CloseLeaf: "0:sub", Late: "root", Churn: true, Mode: "S2", Bound: 2}),
+				scenario(cfg{Name: "sub,clone(sub)/two-updates", Tree: t2[1:2], K: 4, TwoUpdates: true, Mode: "S2", Bound: 2}),
+				scenario(cfg{Name: "clone(sub),sub/two-updates", Tree: t2, K: 4, TwoUpdates: true, Mode: "S2", Bound: 2}),
+			)
 			out = append(out, SiblingScenarios("C05", tier)...)
 			// a sibling that stops reading (event buffer modelled as 2): the others still receive everything
 			out = append(out, c10.HealthySiblingScenarios("C05")...)
